@@ -11,7 +11,7 @@
    sizes, more records, damage at arbitrary bytes with arbitrary values) are judged by TLC against
    WalRecoveryTrace.tla, one line per image.  A rejected line is re-executed; if it is rejected again it is a
    violation.  Recorded findings are attributed by their trigger + exact symptom; their witnesses are replayed
-   unguarded on every run.
+   unguarded on every run, and so are the failing images of repaired defects (REPAIRED), which must be accepted.
 """
 import concurrent.futures as cf
 import json
@@ -21,6 +21,9 @@ import vf
 
 CHUNK = 30000
 WITNESS_DIR = os.path.join(vf.VERIF, "replays", "C10")
+# failing images of defects that were repaired in /repo (known-findings.json "fixed"): replayed on every run,
+# judged by TLC without the guard, and they must be accepted - a rejection is a regression of the repair
+REPAIRED = ["replays/C10/ro-zero-hole.json"]
 
 
 def _export(r, path):
@@ -170,7 +173,7 @@ def _process(ctx, binp, images, label, state, from_spec):
 def _mutants(ctx):
     """Every repaired rule and every recorded finding must be necessary: TLC has to refute the mutants."""
     names = ["SizeOverflowChecked", "IdxRobust", "ZeroTail", "RolloverFlushes", "EmptyReported", "TruncClearsTail",
-             "RoRebuildStrict", "Unguarded"]
+             "RoRebuildStrict", "RoEmptyReported", "Unguarded"]
 
     def one(nm):
         return ctx.tlc("WalRecoveryMC", "walrec-mutant-%s.cfg" % nm, workers=3, label="mutant-" + nm,
@@ -202,6 +205,24 @@ def _witnesses(ctx, binp):
             ctx.known_finding("%s [witness %s: %s]" % (f["what"], f["witness"], _describe(json.loads(lines[0]))))
         else:
             ctx.log("witness %s no longer fails (finding %s seems repaired)" % (f["witness"], f["id"]))
+    for w in REPAIRED:
+        wp = os.path.join(vf.VERIF, w)
+        label = "repaired-" + os.path.splitext(os.path.basename(w))[0]
+        ip = os.path.join(ctx.scratch, label + ".ndjson")
+        with open(ip, "w") as fh:
+            fh.write(json.dumps(json.load(open(wp))) + "\n")
+        obs = _harness(ctx, binp, ip, label)
+        lines, verdicts, _ = _judge(ctx, obs, label, guarded=False)
+        v = verdicts.get(0, ("ok", ""))[0]
+        if v == "illformed":
+            raise vf.Inconclusive("witness %s is outside the crash model" % wp)
+        o = json.loads(lines[0])
+        if v == "bad":
+            # re-executed from the committed image itself: the replay file is the witness
+            ctx.violation("real WAL recovery breaks the property (failing image of a repaired defect): " + _describe(o), wp)
+        else:
+            ctx.traces_validated += 1
+            ctx.log("failing image of the repaired defect %s is accepted: %s" % (w, _describe(o)[-260:]))
 
 
 def run(ctx):
